@@ -472,7 +472,63 @@ fn header_sweep(c: &mut Case) {
     c.l.sig(0x4ead_0000 | c.index);
 }
 
+/// The connection task drives the parsers with its own (legal) call pattern: hostile input
+/// through Token::run must end the task without panic, hang or spin, and whatever it wrote is a
+/// sequence of well-formed records.
+fn async_hostile(c: &mut Case) {
+    use crate::conn::{self, ConnCase, End};
+    let (mut bytes, buffer) = valid_connection(&mut c.rng);
+    let mut kinds = Vec::new();
+    for _ in 0..1 + c.rng.below(3) {
+        kinds.push(mutate(&mut c.rng, &mut bytes));
+    }
+    let scripts = (0..3)
+        .map(|_| {
+            let mut s = crate::handler::gen_script(&mut c.rng, wire::RESPONDER, false);
+            // role-agnostic: plain reads / writes only
+            s.ops.retain(|o| !matches!(o, crate::handler::Op::SetStream(_)));
+            s
+        })
+        .collect();
+    let case = ConnCase {
+        wire: bytes.clone(),
+        reqs: Vec::new(),
+        scripts,
+        buffer,
+        conns: 2,
+        beh: crate::transport::Behaviour::random(&mut c.rng),
+        barriers: Vec::new(),
+        max_piece: *c.rng.pick(&[1usize, 13, 100_000]),
+        close_at_end: true,
+        desc: Json::obj().with("mutations", kinds.iter().map(|k| Json::from(*k)).collect::<Vec<_>>()).with("buffer_size", buffer).with("input_len", bytes.len()),
+    };
+    let (mut w, _runner) = conn::build_world(&case, Rng::new(c.rng.next_u64()));
+    let end = w.run(400_000, |_, _| {});
+    c.l.evaluations += 1;
+    let out = w.pipe.lock().unwrap().outbox.clone();
+    let fail = |c: &mut Case, sig: &str, msg: String| {
+        c.violation(format!("async:{sig}"), Json::obj().with("case", case.desc.clone()).with("problem", msg).with("input_hex", hex_cap(&bytes, 20000)).with("output_hex", hex_cap(&out, 2000)).with("last_actions", conn::trace_tail(&w, 40)));
+    };
+    match end {
+        End::Budget => c.l.count("async_step_budget_exhausted"),
+        End::Quiescent => fail(c, "task-did-not-terminate", format!("all {} input bytes delivered and the peer closed, but Token::run has not returned and nothing is runnable", bytes.len())),
+        End::Finished => match spec::decode_output(&out) {
+            Ok((recs, _)) => {
+                if let Some(bad) = recs.iter().find(|r| matches!(r, spec::OutRec::Other { .. })) {
+                    fail(c, "output-malformed", format!("unexpected record in the output: {bad:?}"));
+                } else {
+                    c.l.count("async_hostile_connections");
+                    let n_inv = w.log.lock().unwrap().invocations.len();
+                    c.l.add("async_hostile_handler_invocations", n_inv as u64);
+                }
+            }
+            Err(m) => fail(c, "output-malformed", m),
+        },
+    }
+}
+
 pub fn run(ctx: &Ctx, evidence: Option<&PathBuf>) -> i32 {
+    ctx.run_cases("async-hostile", ctx.size(6_000, 600_000), async_hostile);
     let sweep_n = match ctx.scale {
         Scale::Full => 1024,
         Scale::San => 256,
@@ -526,6 +582,7 @@ pub fn run(ctx: &Ctx, evidence: Option<&PathBuf>) -> i32 {
     ctx.gate("request_outcome_NullRequest", 5);
     ctx.gate("stream_outcome_AbortRequest", 20);
     ctx.gate("stream_outcome_UnknownVersion", 20);
+    ctx.gate("async_hostile_connections", 500);
     ctx.finish(
         "exploration",
         "inputs: (a) valid generated connections (1-2 requests, management / stray records) with 0..4 structured mutations {version / type / length / padding / id byte, truncation, span duplication / deletion, length prefixes rewritten to 2^31-1 / 0x80000000, \
@@ -534,7 +591,7 @@ pub fn run(ctx: &Ctx, evidence: Option<&PathBuf>) -> i32 {
          Each input runs through 2-4 chunking families (the first is the canonical buffer-filling one) and random stream-parser schedules; catch_unwind around every call; a watchdog flags a single call > 20 s as a hang. \
          Oracle: no panic / hang; done==false => input_buffer non-empty; shadow-buffer bookkeeping after every action; conversions at non-final states return Interrupted; 4 further calls after any terminal result change nothing, repeat the same error and add no output; \
          outcome tuple (parsed request or error kind, env digest, leftover offset, bytes toward the client, stream error, and on success the delivered stream bytes + unread remainder) identical across all chunkings of the same input; on failure reported stream bytes are a prefix of the scanner's E(s). \
-         distinct_nontrivial = distinct input digests (set). Re-run in a plain release build in the thorough tier (debug_assert / overflow checks off).",
+         distinct_nontrivial = distinct input digests (set). Additionally mutated connections run through Token::run (the async layer's own call pattern over both parsers): the task must return without panic / hang / spin and its output must be well-formed records. Re-run in a plain release build in the thorough tier (debug_assert / overflow checks off).",
         &["only invariance is asserted on malformed input; the model is not a specification of error choice", "stream-parser wedges (no buffer space for an oversized GetValues pair) are counted, the stream-phase comparison is skipped for them"],
         false,
         evidence,
